@@ -938,6 +938,8 @@ def values_for(row, seed):
             vals += [0, 1, full, full - 1, full >> 1, int.from_bytes(bytes(M.prng(seed + 5, w)), "big")]
     if kind == "string":
         vals += ["", "A", "ab" * (w // 2), "x" * w, "x" * (w - 1), "Hello"[:w]]
+        # white space is text like any other: leading, inside, trailing (blank, tab, newline), a string of blanks
+        vals += [("RAL 9016 ")[:w], ("x" * (w - 1) + " ")[:w], " lead"[:w], "a\tb\n"[:w], " " * min(w, 3)]
     if kind in ("uint", "cct", "fixed", "temp"):
         if row["mask"]:
             vals.append("MASK")
